@@ -455,8 +455,11 @@ def draw_spec(ch, names, **kw):
 _counter = [0]
 
 
+_CODE_CACHE = {}
+
+
 class World(object):
-    def __init__(self, spec, uid=None):
+    def __init__(self, spec, uid=None, shared_code_key=None):
         if uid is None:
             _counter[0] += 1
             uid = 'w{0}'.format(_counter[0])
@@ -464,14 +467,25 @@ class World(object):
         self.uid = uid
         self.template = spec['template']
         self.modname = 'simworld_' + uid
-        self.filename = '<sim:{0}.py>'.format(uid)
         self.source = spec['source']
-        lines = self.source.splitlines(True)
-        linecache.cache[self.filename] = (len(self.source), None, lines, self.filename)
+        self.shared = shared_code_key is not None
+        if self.shared:
+            # same text built over and over (twins): compile once under one pseudo-file that
+            # stays registered; every build still executes into a fresh module
+            self.filename = '<sim:{0}.py>'.format(shared_code_key)
+            code = _CODE_CACHE.get((shared_code_key, self.source))
+            if code is None:
+                code = _CODE_CACHE[(shared_code_key, self.source)] = compile(self.source, self.filename, 'exec')
+            if self.filename not in linecache.cache:
+                linecache.cache[self.filename] = (len(self.source), None, self.source.splitlines(True), self.filename)
+        else:
+            self.filename = '<sim:{0}.py>'.format(uid)
+            lines = self.source.splitlines(True)
+            linecache.cache[self.filename] = (len(self.source), None, lines, self.filename)
+            code = compile(self.source, self.filename, 'exec')
         self.module = types.ModuleType(self.modname)
         self.module.__file__ = self.filename
         sys.modules[self.modname] = self.module
-        code = compile(self.source, self.filename, 'exec')
         exec(code, self.module.__dict__)
         self._exprs = {}
         for label, expr in spec['subjects'].items():
@@ -496,9 +510,10 @@ class World(object):
             linecache.cache[self.filename] = (len(text), None, list(lines), self.filename)
 
     def teardown(self):
-        linecache.cache.pop(self.filename, None)
+        if not self.shared:
+            linecache.cache.pop(self.filename, None)
         sys.modules.pop(self.modname, None)
-        _forget_inspect_caches(self.modname, self.filename)
+        _forget_inspect_caches(self.modname, None if self.shared else self.filename)
         self.module.__dict__.clear()
         self._exprs.clear()
 
@@ -507,9 +522,11 @@ def _forget_inspect_caches(modname, filename):
     import inspect
     import os
     inspect._filesbymodname.pop(modname, None)
+    if filename is None:
+        return
     for f in (filename, os.path.abspath(filename), os.path.realpath(os.path.abspath(filename))):
         inspect.modulesbyfile.pop(f, None)
 
 
-def build(spec, uid=None):
-    return World(spec, uid)
+def build(spec, uid=None, shared_code_key=None):
+    return World(spec, uid, shared_code_key)
